@@ -181,6 +181,16 @@ class Interp:
                 r = ("ref", ("rest", 1))
             else:
                 raise Unsupported("slice of the remainder from %r" % (lo,))
+        elif nm == "get" and len(d) == 2 and d[0] == ("rest", 0) and d[1][0] == "range":
+            # `rest.get(1..)`: Some(&rest[1..]) when the remainder is non-empty (its first character is a one-byte separator or another
+            # character: only the classes '.', '[' are sliced at 1 by a correct test; for "other" the offset may be inside a character)
+            lo = self.deref(d[1][1][0])
+            if lo == ("const", 1) and self.cls in (".", "["):
+                r = ("variant", "Some", [("ref", ("rest", 1))])
+            elif lo == ("const", 1) and self.cls == "":
+                r = ("variant", "None", [])
+            else:
+                raise Unsupported("get of the remainder from %r" % (lo,))
         elif nm == "split_at" and len(d) == 2 and d[0] == ("path",) and d[1] == ("keylen",):
             r = ("tuple", [("ref", ("key",)), ("ref", ("rest", 0))])
         elif nm in ("eq", "ne") and len(d) == 2 and set(d) == {("key",)}:
